@@ -345,23 +345,27 @@ def sp_forall_key_absent(eng, st, m):
 def sp_tagname(eng, st, i, d):
     """header of the section holding track (instrument i, difficulty d): '<Difficulty><Instrument>'"""
     i, d = eng.as_sym(i), eng.as_sym(d)
-    return V.vstr(z3.Concat(d.d.d, i.d.d))
+    return V.vstr(z3.Concat(V.enum_value(d).d, V.enum_value(i).d))
 
 
 def sp_pair_of_tag(eng, st, tag):
-    """the (instrument, difficulty) pair whose section header is `tag`, or None (from the live enums)"""
+    """the (instrument, difficulty) pair whose section header is `tag`, or None.  The table is the
+    closed expression of the .chart format, evaluated by the live interpreter, and the lookup is
+    built exactly as the engine builds `tag in table` / `table[tag]`, so that the code's and the
+    contract's lookups are the same term."""
+    import itertools
     from pyvc.source import live_module
-    from pyvc.values import OptS, TupS
+    from pyvc.values import OptS
     ins = live_module("chartparse.instrument")
-    I, D = eng.reg.S["Instrument"], eng.reg.S["Difficulty"]
-    t = eng.as_sym(tag).d
-    sh = OptS(TupS([I, D]))
-    res = V.vnone_of(sh)
-    for i in ins.Instrument:
-        for d in ins.Difficulty:
-            pair = V.vsome(V.vtup([V.const_of_py(i, I), V.const_of_py(d, D)]))
-            res = V.ite(t == z3.StringVal(d.value + i.value), V.coerce(pair, sh), res)
-    return res
+    key = ("pair_table",)
+    table = eng.ctx.spec_cache.get(key)
+    if table is None:
+        table = {d.value + i.value: (i, d) for i, d in itertools.product(ins.Instrument, ins.Difficulty)}
+        eng.ctx.spec_cache[key] = table
+    t = eng.as_sym(tag)
+    present = eng.contains(V.vconc(table), t, st)
+    val = eng.concdict_get(table, t, st)
+    return Val(OptS(val.shape), (z3.Not(present), val))
 
 
 def sp_lo_of(eng, st, v):
@@ -385,6 +389,15 @@ def sp_forall_keys(eng, st, d, fn):
     k = z3.Const(V.fresh_name("fk"), ks.sorts()[0])
     body = _truth(eng, st, eng.call_closure(fn.d, [V.from_leaves(ks, [k])], {}, st))
     return V.vbool(z3.ForAll([k], z3.Implies(z3.Select(m.d[0], k), body)))
+
+
+def sp_same(eng, st, a, b):
+    """a is the very value b (leafwise identical representation): used for 'x is the result of
+    F(...)', avoiding element-by-element equality of the sequences inside x"""
+    a, b = eng.as_sym(a), eng.as_sym(b)
+    if a.shape != b.shape:
+        b = V.coerce(b, a.shape)
+    return V.vbool(V.raw_eq(a, b))
 
 
 def sp_fn_result(eng, st, name, *args):
@@ -429,6 +442,7 @@ def register(reg):
     f["hi_of"] = sp_hi_of
     f["keys_of"] = sp_keys_of
     f["forall_keys"] = sp_forall_keys
+    f["same"] = sp_same
     f["fn_result"] = sp_fn_result
     f["callee_ghost"] = sp_callee_ghost
     f["opaque"] = sp_opaque
